@@ -20,7 +20,7 @@ ASSUMPTIONS = [
     "reference order vlib/ref/names.py (RFC 4034 §6.1: explicit A-Z fold table, reversed label tuples, relative < absolute)",
     "minimality of successor/predecessor is not demanded, only strict order / wrap to origin",
 ]
-REQUIRED = ["mon.relativize_roundtrip_relative_origin", "mon.pair_order", "mon.triple_transitivity", "mon.successor", "mon.predecessor", "mon.relativize_roundtrip", "mon.namedict"]
+REQUIRED = ["mon.relativize_operator_spelling", "mon.relativize_roundtrip_relative_origin", "mon.pair_order", "mon.triple_transitivity", "mon.successor", "mon.predecessor", "mon.relativize_roundtrip", "mon.namedict"]
 BUDGET = {"quick": 40.0, "thorough": 420.0}
 
 ALPHA = b"@AZ[\\]^_`az{\x00\xff" + b"aAbBzZ" + b"0-*"
@@ -168,6 +168,12 @@ def check_pair(ctx, a, b):
                     ctx.violation("relativize-prefix-not-byte-identical", f"{a!r} origin {b!r}: {r.labels!r}", case)
             elif r.labels != a:
                 ctx.violation("relativize-changed-non-subdomain", f"{a!r} origin {b!r}: {r.labels!r}", case)
+            # the operator spelling and choose_relativity are the same function of (name, origin)
+            ctx.count("mon.relativize_operator_spelling")
+            if (na - nb).labels != r.labels:
+                ctx.violation(f"subtraction-differs-from-relativize:{rrel}", f"{a!r} - {b!r}: {(na - nb).labels!r} vs {r.labels!r}", case)
+            if nb.is_absolute() and na.is_absolute() and na.choose_relativity(nb, True).labels != r.labels:
+                ctx.violation(f"choose_relativity-differs-from-relativize:{rrel}", f"{a!r} origin {b!r}", case)
     except Exception as e:
         ctx.violation("compare-raised:" + core.exc_sig(e), f"{a!r} vs {b!r}: {e!r}", case)
 
